@@ -177,6 +177,27 @@ def build(op, env, arrays=None):
         a = env[op["a"]]
         rvars = frozenset(Variable(n, a.inputs[n]) for n in op["vars"])
         return a.reduce(get_op(op["fn"]), rvars)
+    if t == "constant":
+        from funsor.constant import Constant
+
+        return Constant(OrderedDict((n, Bint[sz]) for n, sz in op["const"]), env[op["a"]])
+    if t == "scatter":
+        from funsor.terms import Scatter
+
+        src = env[op["a"]]
+        n, size = op["var"]
+        idx = Tensor(np.array(op["index"], dtype=np.int64), OrderedDict([(n, Bint[size])]), op["dest_size"])
+        return Scatter(get_op(op["fn"]), ((op["name"], idx),), src, frozenset([Variable(n, Bint[size])]))
+    if t == "independent":
+        from funsor.terms import Independent
+
+        return Independent(env[op["a"]], op["reals_var"], op["bint_var"], op["diag_var"])
+    if t == "getslice":
+        return env[op["a"]][op["start"] : op["stop"] : op.get("step")]
+    if t == "opcat":
+        return ops.cat(tuple(env[p] for p in op["parts"]), op.get("axis", -1))
+    if t == "opstack":
+        return ops.stack(tuple(env[p] for p in op["parts"]), op.get("axis", 0))
     if t == "evreduce":  # reduction over event (output) dims
         a = env[op["a"]]
         return getattr(a, op["fn"])(op.get("axis"))
@@ -357,6 +378,10 @@ class Gen:
             ("cat", 1),
             ("evreduce", 1),
             ("align", 0.5),
+            ("constant", 0.7),
+            ("scatter", 0.5),
+            ("getslice", 0.5),
+            ("opcat", 0.5),
         ]
         if self.allow is not None:
             kinds = [(k, w) for k, w in kinds if k in self.allow]
@@ -511,6 +536,42 @@ class Gen:
                 self.family_name
             ]
             return self.emit({"op": "evreduce", "fn": r.choice(fns), "a": a, "axis": r.choice([None, 0, -1])})
+        if kind == "constant":
+            a = self.pick(fv)
+            if a is None:
+                return None
+            free = [n for n in NAMES if n not in self.types[a].inputs]
+            if not free:
+                return None
+            names = r.sample(free, r.randint(1, min(2, len(free))))
+            return self.emit({"op": "constant", "a": a, "const": [[n, self.sizes[n]] for n in names]})
+        if kind == "scatter":
+            if self.family_name == "bool":
+                return None
+            a = self.pick(lambda v: fv(v) and any(d.dtype != "real" for d in v.inputs.values()))
+            if a is None:
+                return None
+            n = r.choice([n for n, d in self.types[a].inputs.items() if d.dtype != "real"])
+            size = self.types[a].inputs[n].size
+            dest = size + r.choice([0, 1, 2])
+            index = r.sample(range(dest), size)  # injective
+            self.fresh_names += 1
+            fn = {"ring": "add", "tropical": r.choice(["add", "max"]), "log": r.choice(["logaddexp", "add"])}[self.family_name]
+            return self.emit({"op": "scatter", "fn": fn, "a": a, "var": [n, size], "index": index, "dest_size": dest, "name": "d%d" % self.fresh_names})
+        if kind == "getslice":
+            a = self.pick(lambda v: len(v.output.shape) > 0 and v.output.shape[0] >= 2)
+            if a is None:
+                return None
+            size = self.types[a].output.shape[0]
+            start = r.randrange(size - 1)
+            return self.emit({"op": "getslice", "a": a, "start": start, "stop": r.randint(start + 1, size), "step": r.choice([None, None, 2])})
+        if kind == "opcat":
+            a = self.pick(lambda v: fv(v) and len(v.output.shape) > 0)
+            if a is None:
+                return None
+            ta = self.types[a]
+            b = self.pick(lambda v: v.output == ta.output) or a
+            return self.emit({"op": r.choice(["opcat", "opstack"]), "parts": [a, b], "axis": r.choice([0, -1])})
         if kind == "align":
             a = self.pick(lambda v: len(v.inputs) > 1)
             if a is None:
@@ -748,11 +809,27 @@ def gen_gauss(r):
         elif c < 0.95 and real_in:
             n = r.choice(real_in)
             shape = list(ta.inputs[n].shape)
-            integrand = g.emit({"op": "affine", "name": n, "domain": ["reals", shape] if shape else ["real"], "scale": round(r.uniform(0.5, 2.0), 2), "shift": round(r.uniform(-1, 1), 2)})
-            if integrand and shape:
+            k2 = r.random()
+            if k2 < 0.25 and not shape:
+                integrand = g.emit({"op": "var", "name": n, "domain": ["real"]})  # a bare Variable
+            elif k2 < 0.45:
+                integrand = r.choice([v for v in vals if g.types[v].output == Real] or [a])  # e.g. another Gaussian
+            else:
+                integrand = g.emit({"op": "affine", "name": n, "domain": ["reals", shape] if shape else ["real"], "scale": round(r.uniform(0.5, 2.0), 2), "shift": round(r.uniform(-1, 1), 2)})
+            if integrand and shape and g.types[integrand].output != Real:
                 integrand = g.emit({"op": "evreduce", "fn": "sum", "a": integrand, "axis": None})
             if integrand:
                 out = g.emit({"op": "integrate", "a": a, "b": integrand, "vars": [n]})
+        elif c < 0.97 and real_in and int_in:
+            # Independent: diagonalise a batch input into one vector-valued real input
+            n = r.choice([m for m in real_in if not list(ta.inputs[m].shape)] or real_in)
+            if not list(ta.inputs[n].shape):
+                b = r.choice(int_in)
+                fresh[0] += 1
+                diag = "%s%d__%s" % (n, fresh[0], b)
+                ren = g.emit({"op": "subs", "a": a, "subs": [[n, ["name", diag]]]})
+                if ren:
+                    out = g.emit({"op": "independent", "a": ren, "reals_var": "%s%d" % (n, fresh[0]), "bint_var": b, "diag_var": diag})
         elif real_in:
             # a Delta on one of the real inputs, added to the term
             n = r.choice(real_in)
